@@ -257,3 +257,699 @@ Proof.
     intros j Hj. rewrite G by (rewrite set_bit_length; auto). rewrite get_set_bit by auto.
     unfold memn. cbn [existsb]. rewrite orb_assoc. reflexivity.
 Qed.
+(* ------------------------------------------------------------------ (a) the hash join *)
+Definition pair_type (t : jtype) : bool := match t with TInner | TLeft | TRight | TFull => true | _ => false end.
+(* what a probe row contributes besides its matched pairs, given whether it matched *)
+Definition phi (t : jtype) (wl : Z) (r : row) (m : bool) : rel :=
+  match t with
+  | TRight | TFull => if m then [] else [nulls wl ++ r]
+  | TRightSemi => if m then [r] else []
+  | TRightAnti => if m then [] else [r]
+  | TRightMark => [r ++ [VBool m]]
+  | _ => []
+  end.
+
+Section HJProofs.
+  Variable hash : okey -> Z.
+  Variable t : jtype.
+  Variable nulleq : bool.
+  Variables kb kp : row -> okey.
+  Variable filt : row -> row -> bool.
+  Variables wl wr : Z.
+  Let on := on_of nulleq kb kp filt.
+  Let keepf := keep nulleq kb kp filt.
+  Let setb := fun (bm : list bool) (pr : nat * nat) => set_bit bm (snd pr).
+
+  Definition cand_p (B : rel) (r : row) : list nat :=
+    if key_valid nulleq (kp r) then bucket hash nulleq kb B (hash (kp r)) else [].
+  Definition jp (B : rel) (r : row) : list nat := filter (fun b => on (brow B b) r) (cand_p B r).
+
+  Lemma on_valid : forall l r, on l r = true ->
+    kb l = kp r /\ key_valid nulleq (kb l) = true /\ key_valid nulleq (kp r) = true.
+  Proof.
+    unfold on, on_of. intros l r H. apply andb_true_iff in H. destruct H as [H _].
+    apply keys_eq_true in H. destruct H as [E V]. rewrite <- E. auto.
+  Qed.
+
+  Lemma in_jp : forall B r b, In b (jp B r) <-> (b < length B)%nat /\ on (brow B b) r = true.
+  Proof.
+    unfold jp, cand_p, bucket, build_index. intros B r b. rewrite filter_In. split.
+    - intros [H1 H2]. split; auto. destruct (key_valid nulleq (kp r)); [|destruct H1].
+      apply filter_In in H1. destruct H1 as [H1 _]. apply in_rev in H1. apply filter_In in H1.
+      destruct H1 as [H1 _]. apply in_seq in H1. lia.
+    - intros [H1 H2]. split; auto. destruct (on_valid _ _ H2) as [E [V1 V2]]. rewrite V2.
+      apply filter_In. split; [|rewrite E; apply Z.eqb_refl]. apply in_rev. rewrite rev_involutive.
+      apply filter_In. split; auto. apply in_seq. lia.
+  Qed.
+
+  Lemma jp_perm : forall B r, Permutation (map (brow B) (jp B r)) (filter (fun l => on l r) B).
+  Proof.
+    intros B r. unfold jp, cand_p. destruct (key_valid nulleq (kp r)) eqn:V.
+    - unfold bucket, build_index. rewrite filter_rev, filter_filter, filter_rev, filter_filter.
+      rewrite map_rev. etransitivity; [symmetry; apply Permutation_rev|].
+      rewrite (filter_ext _ (fun b => on (brow B b) r)).
+      + rewrite <- (map_id (filter (fun l => on l r) B)). unfold brow.
+        rewrite (seq_nth_filter (@nil value) (fun i => nth i B []) (fun x => x) (fun b => on (nth b B []) r) (fun l => on l r)); auto.
+      + intros b. destruct (on (brow B b) r) eqn:E; [|apply andb_false_r].
+        destruct (on_valid _ _ E) as [E1 [V1 V2]]. rewrite V1, E1, Z.eqb_refl. reflexivity.
+    - cbn. rewrite filter_all_false; [constructor|]. intros l _. destruct (on l r) eqn:E; auto.
+      destruct (on_valid _ _ E) as [_ [_ V2]]. congruence.
+  Qed.
+
+  Lemma candidates_form : forall B pb,
+    candidates hash nulleq kb kp B pb
+    = flat_map (fun p => map (fun b => (p, b)) (cand_p B (nth p pb []))) (seq 0 (length pb)).
+  Proof.
+    intros. unfold candidates, cand_p. apply flat_map_ext. intros p. destruct (key_valid nulleq (kp (nth p pb []))); reflexivity.
+  Qed.
+  Lemma joined_form : forall B pb,
+    filter (keepf B pb) (candidates hash nulleq kb kp B pb)
+    = flat_map (fun p => map (fun b => (p, b)) (jp B (nth p pb []))) (seq 0 (length pb)).
+  Proof.
+    intros. rewrite candidates_form, filter_flat_map. apply flat_map_ext. intros p.
+    rewrite filter_map_comm. reflexivity.
+  Qed.
+  Lemma in_joined : forall B pb p b,
+    In (p, b) (filter (keepf B pb) (candidates hash nulleq kb kp B pb))
+    <-> (p < length pb)%nat /\ (b < length B)%nat /\ on (brow B b) (nth p pb []) = true.
+  Proof.
+    intros. rewrite joined_form, in_flat_map. split.
+    - intros [p' [H1 H2]]. apply in_map_iff in H2. destruct H2 as [b' [E H2]]. inversion E; subst.
+      apply in_seq in H1. apply in_jp in H2. split; [lia|exact H2].
+    - intros [H1 H2]. exists p. split; [apply in_seq; lia|]. apply in_map. apply in_jp. exact H2.
+  Qed.
+
+  Lemma pairs_part_batch : forall B pb,
+    Permutation (map (fun pr : nat * nat => brow B (snd pr) ++ nth (fst pr) pb [])
+                     (filter (keepf B pb) (candidates hash nulleq kb kp B pb)))
+                (inner_join_r on B pb).
+  Proof.
+    intros. rewrite joined_form, map_flat_map. unfold inner_join_r.
+    rewrite <- (seq_nth_flat_map (@nil value)
+                  (fun p => map (fun l => l ++ nth p pb []) (filter (fun l => on l (nth p pb [])) B))
+                  (fun r => map (fun l => l ++ r) (filter (fun l => on l r) B)) pb) by auto.
+    apply perm_flat_map. intros p _. rewrite map_map. cbn [fst snd].
+    rewrite <- (map_map (brow B) (fun l => l ++ nth p pb [])). apply Permutation_map. apply jp_perm.
+  Qed.
+
+  Lemma memn_fst_joined : forall B pb p, (p < length pb)%nat ->
+    memn p (map fst (filter (keepf B pb) (candidates hash nulleq kb kp B pb)))
+    = existsb (fun l => on l (nth p pb [])) B.
+  Proof.
+    intros B pb p Hp. apply eq_iff_eq_true. rewrite memn_In, existsb_exists, in_map_iff. split.
+    - intros [[p' b] [E H]]. cbn in E. subst p'. apply in_joined in H. destruct H as [_ [H1 H2]].
+      exists (brow B b). split; auto. apply nth_In. auto.
+    - intros [l [H1 H2]]. destruct (In_nth _ _ [] H1) as [b [Hb E]]. exists (p, b). split; auto.
+      apply in_joined. subst l. unfold brow. auto.
+  Qed.
+  Lemma memn_snd_joined : forall B pb b, (b < length B)%nat ->
+    memn b (map snd (filter (keepf B pb) (candidates hash nulleq kb kp B pb)))
+    = existsb (on (brow B b)) pb.
+  Proof.
+    intros B pb b Hb. apply eq_iff_eq_true. rewrite memn_In, existsb_exists, in_map_iff. split.
+    - intros [[p b'] [E H]]. cbn in E. subst b'. apply in_joined in H. destruct H as [H0 [H1 H2]].
+      exists (nth p pb []). split; auto. apply nth_In. auto.
+    - intros [r [H1 H2]]. destruct (In_nth _ _ [] H1) as [p [Hp E]]. exists (p, b). split; auto.
+      apply in_joined. subst r. auto.
+  Qed.
+
+  Lemma candidates_sorted_gen : forall (c : nat -> list nat) n s,
+    StronglySorted ple (flat_map (fun p => map (fun b => (p, b)) (c p)) (seq s n)) /\
+    forall pr, In pr (flat_map (fun p => map (fun b => (p, b)) (c p)) (seq s n)) -> (s <= fst pr < s + n)%nat.
+  Proof.
+    induction n as [|n IH]; intros s; cbn [seq flat_map]; [split; [constructor | intros ? []]|].
+    destruct (IH (S s)) as [S1 S2]. split.
+    - apply ss_app; auto.
+      + induction (c s) as [|b l IHl]; cbn; constructor; auto. apply Forall_forall. intros x Hx.
+        apply in_map_iff in Hx. destruct Hx as [b' [<- _]]. unfold ple. cbn. lia.
+      + intros x y Hx Hy. apply in_map_iff in Hx. destruct Hx as [b' [<- _]]. apply S2 in Hy. unfold ple. cbn. lia.
+    - intros pr Hpr. apply in_app_iff in Hpr. destruct Hpr as [Hpr|Hpr].
+      + apply in_map_iff in Hpr. destruct Hpr as [b' [<- _]]. cbn. lia.
+      + apply S2 in Hpr. lia.
+  Qed.
+  Lemma candidates_sorted : forall B pb,
+    StronglySorted ple (candidates hash nulleq kb kp B pb) /\
+    forall pr, In pr (candidates hash nulleq kb kp B pb) -> (fst pr < length pb)%nat.
+  Proof.
+    intros. rewrite candidates_form.
+    destruct (candidates_sorted_gen (fun p => cand_p B (nth p pb [])) (length pb) 0) as [H1 H2].
+    split; auto. intros pr Hpr. apply H2 in Hpr. lia.
+  Qed.
+
+  (* one page in set form *)
+  Definition emit_set (B pb : rel) (prs : list (nat * nat)) (s e : nat) : rel :=
+    (if pair_type t then map (fun pr : nat * nat => brow B (snd pr) ++ nth (fst pr) pb []) prs else [])
+    ++ flat_map (fun q => phi t wl (nth q pb []) (memn q (map fst prs))) (seq s (e - s)).
+
+  Lemma emit_page_set : forall B pb prs s e, StronglySorted ple prs ->
+    emit_page t wl B pb prs s e = emit_set B pb prs s e.
+  Proof.
+    intros B pb prs s e Hs. apply ss_map_fst in Hs. unfold emit_page, emit_set.
+    assert (A : anti_indices s e s (map fst prs) = filter (fun q => negb (memn q (map fst prs))) (seq s (e - s))).
+    { apply anti_indices_spec; auto. }
+    assert (S' : semi_indices s e None (map fst prs) = filter (fun q => memn q (map fst prs)) (seq s (e - s))).
+    { apply (semi_indices_spec (map fst prs) s e None); auto. }
+    destruct t; cbn [pair_type phi]; try rewrite A; try rewrite S'; try rewrite flat_map_nil_f; try rewrite app_nil_r; try reflexivity.
+    - f_equal. rewrite map_filter_flat_map. apply flat_map_ext. intros q. destruct (memn q (map fst prs)); reflexivity.
+    - f_equal. rewrite map_filter_flat_map. apply flat_map_ext. intros q. destruct (memn q (map fst prs)); reflexivity.
+    - cbn [app]. rewrite map_filter_flat_map. reflexivity.
+    - cbn [app]. rewrite map_filter_flat_map. apply flat_map_ext. intros q. destruct (memn q (map fst prs)); reflexivity.
+    - cbn [app]. unfold mark_indices. rewrite map_map. cbn [fst snd]. rewrite flat_map_singleton. reflexivity.
+  Qed.
+
+  Lemma emit_set_split : forall B pb prs1 prs2 s pl n,
+    last_fst prs1 = Some pl -> StronglySorted ple (prs1 ++ prs2) -> (s <= S pl)%nat -> (S pl <= n)%nat ->
+    Permutation (emit_set B pb prs1 s (S pl) ++ emit_set B pb prs2 (S pl) n) (emit_set B pb (prs1 ++ prs2) s n).
+  Proof.
+    intros B pb prs1 prs2 s pl n Hl Hs H1 H2. unfold emit_set.
+    etransitivity; [apply perm_shuffle4|]. apply Permutation_app.
+    - destruct (pair_type t); [rewrite map_app|]; reflexivity.
+    - rewrite (seq_split s (S pl) n) by lia. rewrite flat_map_app.
+      destruct (last_fst_some _ _ Hl) as [pre [b E]].
+      apply ss_app_inv in Hs. destruct Hs as [Hs1 [Hs2 Hc]].
+      assert (Hlast : In (pl, b) prs1) by (rewrite E; apply in_app_iff; right; left; auto).
+      assert (Hmax : forall x, In x prs1 -> (fst x <= pl)%nat).
+      { rewrite E in Hs1. apply ss_app_inv in Hs1. destruct Hs1 as [_ [_ Hp]].
+        intros x Hx. rewrite E in Hx. apply in_app_iff in Hx. destruct Hx as [Hx|[<-|[]]]; [|cbn; lia].
+        apply (Hp x (pl, b)); [auto|left; auto]. }
+      assert (Hmin : forall y, In y prs2 -> (pl <= fst y)%nat).
+      { intros y Hy. apply (Hc (pl, b) y); auto. }
+      apply Permutation_app; apply Permutation_refl'; apply flat_map_ext_in; intros q Hq; apply in_seq in Hq; f_equal;
+        apply eq_iff_eq_true; rewrite !memn_In, map_app, in_app_iff.
+      + split; [intros X; left; exact X|]. intros [X|X]; [exact X|].
+        apply in_map_iff in X. destruct X as [y [E' Hy]]. apply Hmin in Hy. subst q.
+        assert (E2 : fst y = pl) by lia. apply in_map_iff. exists (pl, b). split; auto.
+      + split; [intros X; right; exact X|]. intros [X|X]; [|exact X].
+        apply in_map_iff in X. destruct X as [y [E' Hy]]. apply Hmax in Hy. lia.
+  Qed.
+
+  Lemma match_nonnil : forall {A C} (l : list A) (a b : C), l <> [] -> match l with [] => a | _ :: _ => b end = b.
+  Proof. destruct l; congruence. Qed.
+  Definition start (joined : option nat) : nat := match joined with Some j => S j | None => O end.
+
+  Lemma run_pages_spec : forall B pb pgs joined vis,
+    pgs <> [] -> StronglySorted ple (concat pgs) ->
+    (forall pr, In pr (concat pgs) -> (start joined <= S (fst pr))%nat /\ (fst pr < length pb)%nat) ->
+    fst (run_pages t nulleq kb kp filt wl B pb pgs joined vis)
+    = (if need_final t then fold_left setb (filter (keepf B pb) (concat pgs)) vis else vis) /\
+    Permutation (snd (run_pages t nulleq kb kp filt wl B pb pgs joined vis))
+                (emit_set B pb (filter (keepf B pb) (concat pgs)) (start joined) (length pb)).
+  Proof.
+    intros B pb pgs. induction pgs as [|pg rest IH]; intros joined vis Hne Hs Hb; [congruence|].
+    destruct rest as [|pg2 rest'].
+    - cbn [run_pages concat]. fold keepf. fold (start joined). rewrite app_nil_r. cbn [fst snd]. rewrite app_nil_r. split.
+      + unfold setb. reflexivity.
+      + rewrite emit_page_set; [reflexivity|]. apply ss_filter. cbn [concat] in Hs. rewrite app_nil_r in Hs. exact Hs.
+    - remember (pg2 :: rest') as rest eqn:Er.
+      assert (Hne' : rest <> []) by (subst; discriminate).
+      cbn [run_pages]. rewrite (match_nonnil rest _ _ Hne'). fold keepf. fold (start joined).
+      set (prs := filter (keepf B pb) pg) in *.
+      set (vis' := if need_final t then fold_left (fun bm pr => set_bit bm (snd pr)) prs vis else vis).
+      cbn [concat] in Hs, Hb. cbn [concat]. rewrite filter_app. fold prs.
+      destruct (ss_app_inv _ _ _ Hs) as [Hs1 [Hs2 Hc]].
+      destruct (last_fst prs) as [pl|] eqn:El.
+      + destruct (last_fst_some _ _ El) as [pre [b Epre]].
+        assert (Hin : In (pl, b) pg).
+        { assert (X : In (pl, b) prs) by (rewrite Epre; apply in_app_iff; right; left; auto).
+          apply filter_In in X. tauto. }
+        destruct (Hb (pl, b)) as [Hb1 Hb2]; [apply in_app_iff; left; auto|]. cbn [fst] in Hb1, Hb2.
+        destruct (IH (Some pl) vis' Hne' Hs2) as [IH1 IH2].
+        { intros pr Hpr. split; [|apply Hb; apply in_app_iff; right; auto]. cbn [start].
+          specialize (Hc (pl, b) pr Hin Hpr). unfold ple in Hc. cbn in Hc. lia. }
+        destruct (run_pages t nulleq kb kp filt wl B pb rest (Some pl) vis') as [v2 o2]. cbn [fst snd] in *. split.
+        * rewrite IH1. unfold vis', setb. destruct (need_final t); [rewrite fold_left_app|]; reflexivity.
+        * rewrite emit_page_set by (apply ss_filter; auto).
+          etransitivity; [apply Permutation_app_head; exact IH2|]. cbn [start].
+          apply emit_set_split; [exact El | | exact Hb1 | lia].
+          unfold prs. rewrite <- filter_app. apply ss_filter. exact Hs.
+      + apply last_fst_none in El. destruct (IH joined vis' Hne' Hs2) as [IH1 IH2].
+        { intros pr Hpr. apply Hb. apply in_app_iff. right; auto. }
+        destruct (run_pages t nulleq kb kp filt wl B pb rest joined vis') as [v2 o2]. cbn [fst snd] in *.
+        rewrite El in *. cbn [app]. split.
+        * rewrite IH1. unfold vis'. rewrite El. destruct (need_final t); reflexivity.
+        * rewrite emit_page_set by constructor. unfold emit_set at 1. cbn [map]. rewrite Nat.sub_0_l. cbn [seq flat_map].
+          destruct (pair_type t); cbn [app]; exact IH2.
+  Qed.
+
+  (* what one probe batch contributes *)
+  Definition batch_rows (B pb : rel) : rel :=
+    (if pair_type t then inner_join_r on B pb else [])
+    ++ flat_map (fun r => phi t wl r (existsb (fun l => on l r) B)) pb.
+
+  Lemma empty_map_no_match : forall B, map_is_empty nulleq kb B = true ->
+    forall i r, (i < length B)%nat -> on (brow B i) r = false.
+  Proof.
+    unfold map_is_empty, build_index. intros B H i r Hi. destruct (on (brow B i) r) eqn:E; auto.
+    destruct (on_valid _ _ E) as [_ [V _]].
+    assert (X : In i (filter (fun i => key_valid nulleq (kb (brow B i))) (seq 0 (length B)))).
+    { apply filter_In. split; auto. apply in_seq. lia. }
+    destruct (filter _ (seq 0 (length B))); [destruct X | discriminate].
+  Qed.
+
+  Lemma probe_batch_spec : forall B sizes pb vis, length vis = length B ->
+    length (fst (probe_batch hash t nulleq kb kp filt wl B sizes pb vis)) = length B /\
+    (forall i, (i < length B)%nat ->
+       get_bit (fst (probe_batch hash t nulleq kb kp filt wl B sizes pb vis)) i
+       = get_bit vis i || (need_final t && existsb (on (brow B i)) pb)) /\
+    Permutation (snd (probe_batch hash t nulleq kb kp filt wl B sizes pb vis)) (batch_rows B pb).
+  Proof.
+    intros B sizes pb vis Hlen. unfold probe_batch. destruct (map_is_empty nulleq kb B) eqn:Em.
+    - pose proof (empty_map_no_match B Em) as Hno. cbn [fst snd]. split; auto. split.
+      + intros i Hi. replace (existsb (on (brow B i)) pb) with false; [rewrite andb_false_r, orb_false_r; reflexivity|].
+        symmetry. destruct (existsb (on (brow B i)) pb) eqn:E; auto. apply existsb_exists in E.
+        destruct E as [r [_ E]]. rewrite (Hno i r Hi) in E. discriminate.
+      + assert (Hex : forall r, existsb (fun l => on l r) B = false).
+        { intros r. destruct (existsb (fun l => on l r) B) eqn:E; auto. apply existsb_exists in E.
+          destruct E as [l [H1 H2]]. destruct (In_nth _ _ [] H1) as [i [Hi E]]. subst l.
+          exfalso. exact (eq_true_false_abs _ H2 (Hno i r Hi)). }
+        unfold batch_rows. rewrite (flat_map_ext _ (fun r => phi t wl r false)) by (intros; rewrite Hex; reflexivity).
+        assert (Hij : inner_join_r on B pb = []).
+        { unfold inner_join_r. rewrite (flat_map_ext _ (fun _ => [])); [apply flat_map_nil_f|].
+          intros r. rewrite filter_all_false; [reflexivity|]. intros l Hl.
+          destruct (In_nth _ _ [] Hl) as [i [Hi E]]. subst l. apply (Hno i r Hi). }
+        rewrite Hij. unfold empty_map_batch.
+        destruct t; cbn [empty_build_empty_result pair_type phi app]; try rewrite flat_map_nil_f; try rewrite flat_map_singleton;
+          try reflexivity.
+        rewrite map_id. reflexivity.
+    - destruct (candidates_sorted B pb) as [Cs Cb].
+      destruct (run_pages_spec B pb (split_pages sizes (candidates hash nulleq kb kp B pb)) None vis) as [R1 R2].
+      + apply split_pages_nonnil.
+      + rewrite split_pages_concat. exact Cs.
+      + rewrite split_pages_concat. intros pr Hpr. split; [cbn; lia | auto].
+      + rewrite split_pages_concat in R1, R2. split; [|split].
+        * rewrite R1. destruct (need_final t); auto. unfold setb. rewrite (proj1 (fold_set_bit _ _)). auto.
+        * intros i Hi. rewrite R1. destruct (need_final t); [|rewrite orb_false_r; reflexivity].
+          unfold setb. rewrite (proj2 (fold_set_bit _ _)) by lia. cbn [andb]. f_equal. apply memn_snd_joined. auto.
+        * etransitivity; [exact R2|]. unfold emit_set, batch_rows, start. rewrite Nat.sub_0_r. apply Permutation_app.
+          -- destruct (pair_type t); [apply pairs_part_batch | constructor].
+          -- apply Permutation_refl'.
+             etransitivity; [|apply (seq_nth_flat_map (@nil value)
+                           (fun q => phi t wl (nth q pb []) (existsb (fun l => on l (nth q pb [])) B))); auto].
+             apply flat_map_ext_in. intros q Hq. apply in_seq in Hq. rewrite memn_fst_joined; [reflexivity|].
+             destruct Hq as [_ Hq]. cbn in Hq. exact Hq.
+  Qed.
+
+  Lemma batch_rows_app : forall B R1 R2,
+    Permutation (batch_rows B R1 ++ batch_rows B R2) (batch_rows B (R1 ++ R2)).
+  Proof.
+    intros. unfold batch_rows, inner_join_r. etransitivity; [apply perm_shuffle4|].
+    rewrite !flat_map_app. destruct (pair_type t); reflexivity.
+  Qed.
+
+  Lemma probe_all_spec : forall B pbs paging vis, length vis = length B ->
+    length (fst (probe_all hash t nulleq kb kp filt wl B paging pbs vis)) = length B /\
+    (forall i, (i < length B)%nat ->
+       get_bit (fst (probe_all hash t nulleq kb kp filt wl B paging pbs vis)) i
+       = get_bit vis i || (need_final t && existsb (on (brow B i)) (concat pbs))) /\
+    Permutation (snd (probe_all hash t nulleq kb kp filt wl B paging pbs vis)) (batch_rows B (concat pbs)).
+  Proof.
+    intros B pbs. induction pbs as [|pb pbs IH]; intros paging vis Hlen; cbn [probe_all concat].
+    - cbn [fst snd existsb]. split; auto. split.
+      + intros. rewrite andb_false_r, orb_false_r. reflexivity.
+      + unfold batch_rows, inner_join_r. cbn. destruct (pair_type t); constructor.
+    - destruct (probe_batch_spec B (hd [] paging) pb vis Hlen) as [P1 [P2 P3]].
+      destruct (probe_batch hash t nulleq kb kp filt wl B (hd [] paging) pb vis) as [v1 o1]. cbn [fst snd] in *.
+      destruct (IH (tl paging) v1 P1) as [Q1 [Q2 Q3]].
+      destruct (probe_all hash t nulleq kb kp filt wl B (tl paging) pbs v1) as [v2 o2]. cbn [fst snd] in *.
+      split; auto. split.
+      + intros i Hi. rewrite Q2, P2 by auto. rewrite existsb_app. rewrite <- orb_assoc. f_equal.
+        destruct (need_final t); reflexivity.
+      + etransitivity; [apply Permutation_app; eassumption|]. apply batch_rows_app.
+  Qed.
+End HJProofs.
+Lemma get_bit_repeat_false : forall n i, get_bit (repeat false n) i = false.
+Proof. unfold get_bit. induction n; intros [|i]; cbn; auto. Qed.
+
+Lemma filter_as_flat_map : forall {A} (g : A -> bool) l, filter g l = flat_map (fun q => if g q then [q] else []) l.
+Proof. induction l as [|a l IH]; [reflexivity|]. cbn. destruct (g a); cbn; rewrite IH; reflexivity. Qed.
+Lemma final_map_filter : forall {C} (B : rel) (g : nat -> bool) (f : row -> bool) (G : row -> C),
+  (forall i, (i < length B)%nat -> g i = f (brow B i)) ->
+  map (fun i => G (brow B i)) (filter g (seq 0 (length B))) = map G (filter f B).
+Proof.
+  intros. apply (seq_nth_filter (@nil value) (fun i => G (brow B i)) G g f B). intros i Hi. split; [reflexivity|]. apply H. exact Hi.
+Qed.
+Lemma final_map_all : forall {C} (B : rel) (F : nat -> C) (G : row -> C),
+  (forall i, (i < length B)%nat -> F i = G (brow B i)) -> map F (seq 0 (length B)) = map G B.
+Proof. intros. apply (seq_nth_map (@nil value) F G B). exact H. Qed.
+
+Theorem hash_join_correct : forall hash t nulleq kb kp filt wl wr B paging pbs,
+  Permutation (hash_join hash t nulleq kb kp filt wl wr B paging pbs)
+              (join_def t (on_of nulleq kb kp filt) wl wr B (concat pbs)).
+Proof.
+  intros. unfold hash_join.
+  destruct (probe_all_spec hash t nulleq kb kp filt wl B pbs paging (repeat false (length B)) (repeat_length _ _))
+    as [Hlen [Hbit Hout]].
+  destruct (probe_all hash t nulleq kb kp filt wl B paging pbs (repeat false (length B))) as [vis out].
+  cbn [fst snd] in *. set (R := concat pbs) in *. set (on := on_of nulleq kb kp filt) in *.
+  assert (Hb : forall i, (i < length B)%nat -> get_bit vis i = need_final t && existsb (on (brow B i)) R).
+  { intros i Hi. rewrite Hbit by auto. rewrite get_bit_repeat_false. reflexivity. }
+  clear Hbit. unfold final_rows. rewrite Hlen. unfold batch_rows in Hout. fold on in Hout.
+  destruct t; cbn [join_def pair_type phi need_final andb] in *;
+    try rewrite flat_map_nil_f in Hout; try rewrite app_nil_r in Hout; try rewrite app_nil_r.
+  - (* Inner *) etransitivity; [exact Hout|]. symmetry. apply inner_join_swap.
+  - (* Left *)
+    rewrite (final_map_filter B _ (fun l => negb (existsb (on l) R)) (fun l => l ++ nulls wr))
+      by (intros i Hi; rewrite Hb by auto; reflexivity).
+    etransitivity; [apply Permutation_app_tail; exact Hout|].
+    etransitivity; [apply Permutation_app_tail; symmetry; apply inner_join_swap|].
+    symmetry. apply left_join_decomp.
+  - (* Right *)
+    etransitivity; [exact Hout|]. symmetry. etransitivity; [apply right_join_decomp_r|].
+    apply Permutation_app_head. unfold unmatched_right. rewrite map_filter_flat_map. apply Permutation_refl'.
+    apply flat_map_ext. intros r. destruct (existsb (fun l => on l r) B); reflexivity.
+  - (* Full *)
+    rewrite (final_map_filter B _ (fun l => negb (existsb (on l) R)) (fun l => l ++ nulls wr))
+      by (intros i Hi; rewrite Hb by auto; reflexivity).
+    etransitivity; [apply Permutation_app_tail; exact Hout|].
+    symmetry. etransitivity; [apply full_join_decomp|].
+    etransitivity; [apply Permutation_app_tail; apply inner_join_swap|].
+    rewrite <- app_assoc. apply Permutation_app_head. etransitivity; [apply Permutation_app_comm|].
+    apply Permutation_app_tail. unfold unmatched_right. rewrite map_filter_flat_map. apply Permutation_refl'.
+    apply flat_map_ext. intros r. destruct (existsb (fun l => on l r) B); reflexivity.
+  - (* LeftSemi *)
+    apply Permutation_sym, Permutation_nil in Hout. subst out. cbn [app]. apply Permutation_refl'. unfold semi_join.
+    etransitivity; [|apply map_id].
+    apply (final_map_filter B _ (fun l => existsb (on l) R) (fun l => l)). intros i Hi. rewrite Hb by auto. reflexivity.
+  - (* RightSemi *)
+    etransitivity; [exact Hout|]. apply Permutation_refl'. unfold semi_join, flip_on.
+    symmetry. apply filter_as_flat_map.
+  - (* LeftAnti *)
+    apply Permutation_sym, Permutation_nil in Hout. subst out. cbn [app]. apply Permutation_refl'. unfold anti_join.
+    etransitivity; [|apply map_id].
+    apply (final_map_filter B _ (fun l => negb (existsb (on l) R)) (fun l => l)). intros i Hi. rewrite Hb by auto. reflexivity.
+  - (* RightAnti *)
+    etransitivity; [exact Hout|]. apply Permutation_refl'. unfold anti_join, flip_on.
+    symmetry. etransitivity; [apply filter_as_flat_map|]. apply flat_map_ext. intros r.
+    destruct (existsb (fun l => on l r) B); reflexivity.
+  - (* LeftMark *)
+    apply Permutation_sym, Permutation_nil in Hout. subst out. cbn [app]. apply Permutation_refl'.
+    apply (final_map_all B _ (fun l => l ++ [VBool (existsb (on l) R)])). intros i Hi. rewrite Hb by auto. reflexivity.
+  - (* RightMark *)
+    etransitivity; [exact Hout|]. apply Permutation_refl'. apply flat_map_singleton.
+Qed.
+
+(* the result does not depend on how the probe side is cut into batches, on the paging, or on the hash function *)
+Corollary probe_batching_irrelevant : forall hash hash' t nulleq kb kp filt wl wr B paging paging' pbs pbs',
+  concat pbs = concat pbs' ->
+  Permutation (hash_join hash t nulleq kb kp filt wl wr B paging pbs)
+              (hash_join hash' t nulleq kb kp filt wl wr B paging' pbs').
+Proof.
+  intros. etransitivity; [apply hash_join_correct|]. rewrite H. symmetry. apply hash_join_correct.
+Qed.
+
+(* NullEqualsNothing: a NULL key matches nothing -- in the definition, and in the algorithm such rows never even
+   become candidates (NULL build keys are not indexed, NULL probe keys are not looked up) *)
+Theorem null_keys_never_match : forall hash kb kp filt B pb,
+  (forall l r, no_null (kb l) = false \/ no_null (kp r) = false -> on_of false kb kp filt l r = false) /\
+  (forall p b, In (p, b) (candidates hash false kb kp B pb) ->
+     no_null (kp (nth p pb [])) = true /\ no_null (kb (brow B b)) = true).
+Proof.
+  intros. split.
+  - intros l r H. destruct (on_of false kb kp filt l r) eqn:E; auto.
+    destruct (on_valid false kb kp filt l r E) as [_ [V1 V2]]. unfold key_valid in *. cbn in *. destruct H; congruence.
+  - intros p b H. unfold candidates in H. apply in_flat_map in H. destruct H as [p' [_ H]].
+    unfold key_valid in H. cbn [orb] in H. destruct (no_null (kp (nth p' pb []))) eqn:V; [|destruct H].
+    apply in_map_iff in H. destruct H as [b' [E H]]. inversion E; subst. split; auto.
+    unfold bucket, build_index in H. apply filter_In in H. destruct H as [H _]. apply in_rev in H.
+    apply filter_In in H. destruct H as [_ H]. exact H.
+Qed.
+(* ------------------------------------------------------------------ (b) the sort-merge join *)
+Lemma perm_of_eq : forall {A} (l l' : list A), l = l' -> Permutation l l'.
+Proof. intros; subst; reflexivity. Qed.
+Lemma existsb_ext_in : forall {A} (f g : A -> bool) l, (forall x, In x l -> f x = g x) -> existsb f l = existsb g l.
+Proof.
+  induction l as [|a l IH]; intros H; [reflexivity|]. cbn. rewrite (H a (or_introl eq_refl)), IH; auto.
+  intros; apply H; right; auto.
+Qed.
+Lemma existsb_all_false : forall {A} (f : A -> bool) l, (forall x, In x l -> f x = false) -> existsb f l = false.
+Proof.
+  induction l as [|a l IH]; intros H; [reflexivity|]. cbn. rewrite (H a (or_introl eq_refl)), IH; auto.
+  intros; apply H; right; auto.
+Qed.
+Lemma filter_app_l : forall {A} (f : A -> bool) a b, (forall x, In x b -> f x = false) -> filter f (a ++ b) = filter f a.
+Proof. intros. rewrite filter_app, (filter_all_false f b) by auto. apply app_nil_r. Qed.
+Lemma filter_app_r : forall {A} (f : A -> bool) a b, (forall x, In x a -> f x = false) -> filter f (a ++ b) = filter f b.
+Proof. intros. rewrite filter_app, (filter_all_false f a) by auto. reflexivity. Qed.
+Lemma existsb_app_l : forall {A} (f : A -> bool) a b, (forall x, In x b -> f x = false) -> existsb f (a ++ b) = existsb f a.
+Proof. intros. rewrite existsb_app, (existsb_all_false f b) by auto. apply orb_false_r. Qed.
+Lemma existsb_app_r : forall {A} (f : A -> bool) a b, (forall x, In x a -> f x = false) -> existsb f (a ++ b) = existsb f b.
+Proof. intros. rewrite existsb_app, (existsb_all_false f a) by auto. reflexivity. Qed.
+
+(* the definition only looks at the join condition on pairs of rows of the two inputs *)
+Lemma join_def_ext_in : forall t on on' wl wr L R,
+  (forall l r, In l L -> In r R -> on l r = on' l r) ->
+  join_def t on wl wr L R = join_def t on' wl wr L R.
+Proof.
+  intros t on on' wl wr L R H.
+  assert (F1 : forall l, In l L -> filter (on l) R = filter (on' l) R) by (intros; apply filter_ext_in; auto).
+  assert (F2 : forall r, In r R -> filter (fun l => on l r) L = filter (fun l => on' l r) L) by (intros; apply filter_ext_in; auto).
+  assert (E1 : forall l, In l L -> existsb (on l) R = existsb (on' l) R) by (intros; apply existsb_ext_in; auto).
+  assert (E2 : forall r, In r R -> existsb (fun l => on l r) L = existsb (fun l => on' l r) L) by (intros; apply existsb_ext_in; auto).
+  destruct t; cbn [join_def]; unfold inner_join, left_join, right_join, full_join, left_join, unmatched_right, semi_join, anti_join, flip_on.
+  - apply flat_map_ext_in. intros l Hl. rewrite F1; auto.
+  - apply flat_map_ext_in. intros l Hl. rewrite F1; auto.
+  - apply flat_map_ext_in. intros r Hr. rewrite F2; auto.
+  - f_equal; [apply flat_map_ext_in; intros l Hl; rewrite F1; auto|]. f_equal. apply filter_ext_in. intros r Hr. rewrite E2; auto.
+  - apply filter_ext_in. intros l Hl. apply E1; auto.
+  - apply filter_ext_in. intros r Hr. apply E2; auto.
+  - apply filter_ext_in. intros l Hl. rewrite E1; auto.
+  - apply filter_ext_in. intros r Hr. rewrite E2; auto.
+  - apply map_ext_in. intros l Hl. rewrite E1; auto.
+  - apply map_ext_in. intros r Hr. rewrite E2; auto.
+Qed.
+
+(* block decomposition: if no row of L1 matches a row of R2 and no row of L2 matches a row of R1 *)
+Lemma join_def_blocks : forall t on wl wr L1 L2 R1 R2,
+  (forall l r, In l L1 -> In r R2 -> on l r = false) ->
+  (forall l r, In l L2 -> In r R1 -> on l r = false) ->
+  Permutation (join_def t on wl wr (L1 ++ L2) (R1 ++ R2))
+              (join_def t on wl wr L1 R1 ++ join_def t on wl wr L2 R2).
+Proof.
+  intros t on wl wr L1 L2 R1 R2 H12 H21.
+  assert (FL1 : forall l, In l L1 -> filter (on l) (R1 ++ R2) = filter (on l) R1) by (intros; apply filter_app_l; auto).
+  assert (FL2 : forall l, In l L2 -> filter (on l) (R1 ++ R2) = filter (on l) R2) by (intros; apply filter_app_r; auto).
+  assert (FR1 : forall r, In r R1 -> filter (fun l => on l r) (L1 ++ L2) = filter (fun l => on l r) L1)
+    by (intros; apply filter_app_l; auto).
+  assert (FR2 : forall r, In r R2 -> filter (fun l => on l r) (L1 ++ L2) = filter (fun l => on l r) L2)
+    by (intros; apply filter_app_r; auto).
+  assert (EL1 : forall l, In l L1 -> existsb (on l) (R1 ++ R2) = existsb (on l) R1) by (intros; apply existsb_app_l; auto).
+  assert (EL2 : forall l, In l L2 -> existsb (on l) (R1 ++ R2) = existsb (on l) R2) by (intros; apply existsb_app_r; auto).
+  assert (ER1 : forall r, In r R1 -> existsb (fun l => on l r) (L1 ++ L2) = existsb (fun l => on l r) L1)
+    by (intros; apply existsb_app_l; auto).
+  assert (ER2 : forall r, In r R2 -> existsb (fun l => on l r) (L1 ++ L2) = existsb (fun l => on l r) L2)
+    by (intros; apply existsb_app_r; auto).
+  assert (LJ : forall wr', left_join on wr' (L1 ++ L2) (R1 ++ R2) = left_join on wr' L1 R1 ++ left_join on wr' L2 R2).
+  { intros. unfold left_join. etransitivity; [apply flat_map_app|]. f_equal; apply flat_map_ext_in; intros l Hl; [rewrite FL1|rewrite FL2]; auto. }
+  assert (UR : unmatched_right on (L1 ++ L2) (R1 ++ R2) = unmatched_right on L1 R1 ++ unmatched_right on L2 R2).
+  { unfold unmatched_right. etransitivity; [apply filter_app|]. f_equal; apply filter_ext_in; intros r Hr; [rewrite ER1|rewrite ER2]; auto. }
+  destruct t; unfold join_def, flip_on.
+  - apply perm_of_eq. unfold inner_join. etransitivity; [apply flat_map_app|].
+    f_equal; apply flat_map_ext_in; intros l Hl; [rewrite FL1|rewrite FL2]; auto.
+  - apply perm_of_eq. apply LJ.
+  - apply perm_of_eq. unfold right_join. etransitivity; [apply flat_map_app|].
+    f_equal; apply flat_map_ext_in; intros r Hr; [rewrite FR1|rewrite FR2]; auto.
+  - unfold full_join. rewrite LJ, UR, map_app. apply perm_shuffle4.
+  - apply perm_of_eq. unfold semi_join. etransitivity; [apply filter_app|].
+    f_equal; apply filter_ext_in; intros l Hl; [rewrite EL1|rewrite EL2]; auto.
+  - apply perm_of_eq. unfold semi_join. etransitivity; [apply filter_app|].
+    f_equal; apply filter_ext_in; intros r Hr; [rewrite ER1|rewrite ER2]; auto.
+  - apply perm_of_eq. unfold anti_join. etransitivity; [apply filter_app|].
+    f_equal; apply filter_ext_in; intros l Hl; [rewrite EL1|rewrite EL2]; auto.
+  - apply perm_of_eq. unfold anti_join. etransitivity; [apply filter_app|].
+    f_equal; apply filter_ext_in; intros r Hr; [rewrite ER1|rewrite ER2]; auto.
+  - apply perm_of_eq. etransitivity; [apply map_app|]. f_equal; apply map_ext_in; intros l Hl; [rewrite EL1|rewrite EL2]; auto.
+  - apply perm_of_eq. etransitivity; [apply map_app|]. f_equal; apply map_ext_in; intros r Hr; [rewrite ER1|rewrite ER2]; auto.
+Qed.
+
+(* ---- the comparators *)
+Lemma ocmp_antisym : forall o a b, ocmp o b a = CompOpp (ocmp o a b).
+Proof.
+  intros [d nf] [x|] [y|]; cbn; try (destruct nf; reflexivity).
+  destruct d; apply Z.compare_antisym.
+Qed.
+Lemma ocmp_eq : forall o a b, ocmp o a b = Eq -> a = b.
+Proof.
+  intros [d nf] [x|] [y|]; cbn; intros H; auto; try (destruct nf; discriminate).
+  destruct d; apply Z.compare_eq in H; congruence.
+Qed.
+Lemma ocmp_refl : forall o a, ocmp o a a = Eq.
+Proof. intros [d nf] [x|]; cbn; auto. destruct d; apply Z.compare_refl. Qed.
+Lemma scmp_antisym : forall a so b, scmp so b a = CompOpp (scmp so a b).
+Proof.
+  induction a as [|x a IH]; intros so [|y b]; cbn; auto.
+  rewrite (ocmp_antisym _ x y). destruct (ocmp (hd (false, false) so) x y); cbn; auto.
+Qed.
+Lemma scmp_eq : forall a so b, scmp so a b = Eq -> a = b.
+Proof.
+  induction a as [|x a IH]; intros so [|y b]; cbn; intros H; auto; try discriminate.
+  destruct (ocmp (hd (false, false) so) x y) eqn:E; try discriminate.
+  apply ocmp_eq in E. apply IH in H. congruence.
+Qed.
+Lemma scmp_refl : forall a so, scmp so a a = Eq.
+Proof. induction a as [|x a IH]; intros so; cbn; auto. rewrite ocmp_refl. apply IH. Qed.
+
+Lemma kcmp_eq_iff : forall ne a so b, kcmp ne so a b = Eq <-> keys_eq ne a b = true.
+Proof.
+  induction a as [|x a IH]; intros so [|y b]; cbn; try (split; [discriminate|discriminate]); [tauto|].
+  destruct x as [x|], y as [y|]; cbn [oeq andb].
+  - destruct (ocmp (hd (false, false) so) (Some x) (Some y)) eqn:E.
+    + apply ocmp_eq in E. inversion E; subst. rewrite Z.eqb_refl. cbn. apply IH.
+    + assert (x <> y) by (intros ->; rewrite ocmp_refl in E; discriminate).
+      apply Z.eqb_neq in H. rewrite H. cbn. split; discriminate.
+    + assert (x <> y) by (intros ->; rewrite ocmp_refl in E; discriminate).
+      apply Z.eqb_neq in H. rewrite H. cbn. split; discriminate.
+  - cbn. destruct (snd (hd (false, false) so)); split; discriminate.
+  - cbn. destruct (snd (hd (false, false) so)); split; discriminate.
+  - destruct ne; cbn; [apply IH | split; discriminate].
+Qed.
+Lemma key_valid_tl : forall ne x a, key_valid ne (x :: a) = true -> key_valid ne a = true.
+Proof.
+  unfold key_valid. intros ne x a H. destruct ne; auto. cbn in *. apply andb_true_iff in H. tauto.
+Qed.
+Lemma kcmp_scmp : forall ne a so b,
+  key_valid ne a = true \/ key_valid ne b = true -> kcmp ne so a b = scmp so a b.
+Proof.
+  induction a as [|x a IH]; intros so [|y b] H; cbn; auto.
+  assert (H' : key_valid ne a = true \/ key_valid ne b = true) by (destruct H as [H|H]; apply key_valid_tl in H; auto).
+  destruct x as [x|], y as [y|]; try (rewrite IH by auto; reflexivity).
+  destruct ne.
+  - cbn. apply IH. auto.
+  - unfold key_valid in H. cbn in H. destruct H; discriminate.
+Qed.
+
+(* Less: the left head row matches nothing at or after the right head row *)
+Lemma lt_no_match : forall ne so a b b',
+  kcmp ne so a b = Lt -> scmp so b b' <> Gt -> keys_eq ne a b' = false.
+Proof.
+  intros ne so a b b' H1 H2. destruct (keys_eq ne a b') eqn:E; auto. apply keys_eq_true in E. destruct E as [<- V].
+  rewrite kcmp_scmp in H1 by auto. rewrite (scmp_antisym a so b), H1 in H2. cbn in H2. congruence.
+Qed.
+Lemma gt_no_match : forall ne so a a' b,
+  kcmp ne so a b = Gt -> scmp so a a' <> Gt -> keys_eq ne a' b = false.
+Proof.
+  intros ne so a a' b H1 H2. destruct (keys_eq ne a' b) eqn:E; auto. apply keys_eq_true in E. destruct E as [-> V].
+  rewrite kcmp_scmp in H1 by auto. congruence.
+Qed.
+
+(* ---- runs *)
+Lemma take_drop_while : forall {A} (f : A -> bool) l, take_while f l ++ drop_while f l = l.
+Proof. induction l as [|a l IH]; [reflexivity|]. cbn. destruct (f a); cbn; [rewrite IH|]; reflexivity. Qed.
+Lemma take_while_all : forall {A} (f : A -> bool) l x, In x (take_while f l) -> f x = true.
+Proof.
+  induction l as [|a l IH]; intros x H; [destruct H|]. cbn in H. destruct (f a) eqn:E; [|destruct H].
+  destruct H as [<-|H]; auto.
+Qed.
+Lemma drop_while_length : forall {A} (f : A -> bool) l, (length (drop_while f l) <= length l)%nat.
+Proof. induction l as [|a l IH]; cbn; [lia|]. destruct (f a); cbn; lia. Qed.
+Lemma drop_while_sorted : forall {A} (R : A -> A -> Prop) f l, StronglySorted R l -> StronglySorted R (drop_while f l).
+Proof.
+  induction l as [|a l IH]; intros H; [constructor|]. cbn. destruct (f a); auto. inversion H; auto.
+Qed.
+Lemma drop_no_key : forall so (k : row -> okey) (f : row -> bool) K l L,
+  key_sorted so k (l :: L) -> k l = K -> (forall x, f x = true <-> k x = K) ->
+  forall y, In y (drop_while f (l :: L)) -> k y <> K.
+Proof.
+  intros so k f K l L Hs Hl Hf. cbn [drop_while]. rewrite (proj2 (Hf l) Hl).
+  unfold key_sorted in Hs. inversion Hs as [|? ? HsL Hall]; subst. clear Hs. rewrite Forall_forall in Hall.
+  induction L as [|x L IH]; intros y Hy; [destruct Hy|].
+  inversion HsL as [|? ? HsL' Hx]; subst. rewrite Forall_forall in Hx. cbn [drop_while] in Hy.
+  destruct (f x) eqn:Ex.
+  - apply IH; auto. intros z Hz. apply Hall. right; auto.
+  - destruct Hy as [<-|Hy].
+    + intros E. apply Hf in E. congruence.
+    + intros E. specialize (Hall x (or_introl eq_refl)). specialize (Hx y Hy). rewrite E in Hx.
+      rewrite (scmp_antisym (k l) so (k x)) in Hx.
+      destruct (scmp so (k l) (k x)) eqn:C; cbn in Hx; try congruence.
+      apply scmp_eq in C. assert (f x = true) by (apply Hf; congruence). congruence.
+Qed.
+
+Section SMJProofs.
+  Variable t : jtype.
+  Variable nulleq : bool.
+  Variable so : list (bool * bool).
+  Variables kl kr : row -> okey.
+  Variable filt : row -> row -> bool.
+  Variables wl wr : Z.
+  Let on := on_of nulleq kl kr filt.
+
+  Lemma smj_fuel_correct : forall fuel L R,
+    (length L + length R < fuel)%nat -> key_sorted so kl L -> key_sorted so kr R ->
+    Permutation (smj t nulleq so kl kr filt wl wr fuel L R) (join_def t on wl wr L R).
+  Proof.
+    induction fuel as [|f IH]; intros L R Hf HL HR; [lia|]. cbn [smj].
+    destruct L as [|l L'].
+    { apply perm_of_eq. apply join_def_ext_in. intros ? ? []. }
+    destruct R as [|r R'].
+    { apply perm_of_eq. apply join_def_ext_in. intros ? ? _ []. }
+    pose proof HL as HL0. pose proof HR as HR0. unfold key_sorted in HL, HR.
+    inversion HL as [|? ? HL' HLall]; subst. inversion HR as [|? ? HR' HRall]; subst.
+    rewrite Forall_forall in HLall, HRall. cbn [length] in Hf.
+    destruct (kcmp nulleq so (kl l) (kr r)) eqn:C.
+    - (* Equal: the two runs *)
+      set (inl := fun x => is_eq (kcmp nulleq so (kl x) (kr r))).
+      set (inr := fun y => is_eq (kcmp nulleq so (kl l) (kr y))).
+      pose proof (proj1 (kcmp_eq_iff _ _ _ _) C) as KE. apply keys_eq_true in KE. destruct KE as [EK VK].
+      set (K := kl l) in *.
+      assert (Hinl : forall x, inl x = true <-> kl x = K).
+      { intros x. unfold inl. rewrite <- EK. split.
+        - intros H. destruct (kcmp nulleq so (kl x) K) eqn:E; try discriminate.
+          apply kcmp_eq_iff, keys_eq_true in E. tauto.
+        - intros ->. rewrite (proj2 (kcmp_eq_iff _ _ _ _) (keys_eq_refl _ _ VK)). reflexivity. }
+      assert (Hinr : forall y, inr y = true <-> kr y = K).
+      { intros y. unfold inr. fold K. split.
+        - intros H. destruct (kcmp nulleq so K (kr y)) eqn:E; try discriminate.
+          apply kcmp_eq_iff, keys_eq_true in E. destruct E; auto.
+        - intros ->. rewrite (proj2 (kcmp_eq_iff _ _ _ _) (keys_eq_refl _ _ VK)). reflexivity. }
+      assert (Il : inl l = true) by (apply Hinl; reflexivity).
+      assert (Ir : inr r = true) by (apply Hinr; auto).
+      etransitivity.
+      + apply Permutation_app_head. apply IH.
+        * pose proof (drop_while_length inl (l :: L')) as X1. pose proof (drop_while_length inr (r :: R')) as X2.
+          cbn [drop_while] in X1, X2 |- *. rewrite Il in X1 |- *. rewrite Ir in X2 |- *.
+          pose proof (drop_while_length inl L'). pose proof (drop_while_length inr R'). lia.
+        * apply drop_while_sorted. exact HL0.
+        * apply drop_while_sorted. exact HR0.
+      + rewrite <- (take_drop_while inl (l :: L')) at 3. rewrite <- (take_drop_while inr (r :: R')) at 3.
+        symmetry. etransitivity; [apply join_def_blocks|].
+        * intros x y Hx Hy. apply take_while_all in Hx. apply Hinl in Hx.
+          apply (drop_no_key so kr inr K r R' HR0 (eq_sym EK) Hinr) in Hy.
+          unfold on, on_of. destruct (keys_eq nulleq (kl x) (kr y)) eqn:E; auto. apply keys_eq_true in E. destruct E. congruence.
+        * intros x y Hx Hy. apply take_while_all in Hy. apply Hinr in Hy.
+          apply (drop_no_key so kl inl K l L' HL0 eq_refl Hinl) in Hx.
+          unfold on, on_of. destruct (keys_eq nulleq (kl x) (kr y)) eqn:E; auto. apply keys_eq_true in E. destruct E. congruence.
+        * apply Permutation_app_tail. apply perm_of_eq. apply join_def_ext_in.
+          intros x y Hx Hy. apply take_while_all in Hx. apply Hinl in Hx. apply take_while_all in Hy. apply Hinr in Hy.
+          unfold on, on_of. rewrite Hx, Hy, (keys_eq_refl _ _ VK). reflexivity.
+    - (* Less: l is unmatched *)
+      etransitivity; [apply Permutation_app_head; apply IH; [cbn [length]; lia | exact HL' | exact HR0]|].
+      symmetry. change (l :: L') with ([l] ++ L'). change (r :: R') with ([] ++ (r :: R')).
+      etransitivity; [apply join_def_blocks|].
+      + intros x y [<-|[]] Hy. unfold on, on_of. rewrite (lt_no_match nulleq so (kl l) (kr r) (kr y) C); auto.
+        destruct Hy as [<-|Hy]; [rewrite scmp_refl; discriminate | apply HRall; auto].
+      + intros ? ? _ [].
+      + apply Permutation_app_tail. apply perm_of_eq. apply join_def_ext_in. intros ? ? _ [].
+    - (* Greater: r is unmatched *)
+      etransitivity; [apply Permutation_app_head; apply IH; [cbn [length]; lia | exact HL0 | exact HR']|].
+      symmetry. change (r :: R') with ([r] ++ R'). change (l :: L') with ([] ++ (l :: L')).
+      etransitivity; [apply join_def_blocks|].
+      + intros ? ? [].
+      + intros x y Hx [<-|[]]. unfold on, on_of. rewrite (gt_no_match nulleq so (kl l) (kl x) (kr r) C); auto.
+        destruct Hx as [<-|Hx]; [rewrite scmp_refl; discriminate | apply HLall; auto].
+      + apply Permutation_app_tail. apply perm_of_eq. apply join_def_ext_in. intros ? ? [].
+  Qed.
+End SMJProofs.
+
+Theorem smj_correct : forall t nulleq so kl kr filt wl wr L R,
+  key_sorted so kl L -> key_sorted so kr R ->
+  Permutation (smj_run t nulleq so kl kr filt wl wr L R) (join_def t (on_of nulleq kl kr filt) wl wr L R).
+Proof. intros. unfold smj_run. apply smj_fuel_correct; auto. Qed.
+
+Lemma key_sortedb_iff : forall so k X, key_sortedb so k X = true <-> key_sorted so k X.
+Proof.
+  unfold key_sorted. induction X as [|a X IH]; cbn [key_sortedb]; [split; [intros; constructor | reflexivity]|].
+  rewrite andb_true_iff, forallb_forall, IH. split.
+  - intros [H1 H2]. constructor; auto. apply Forall_forall. intros b Hb. specialize (H1 b Hb).
+    destruct (scmp so (k a) (k b)); try discriminate; cbn in H1; congruence.
+  - intros H. inversion H; subst. rewrite Forall_forall in H3. split; auto. intros b Hb. specialize (H3 b Hb).
+    destruct (scmp so (k a) (k b)); auto; congruence.
+Qed.
